@@ -261,6 +261,13 @@ func (w *kworld) mstep(op string) (out string, stop bool) {
 		}
 		w.t = v.(*tensor.Dense)
 		return st(nil), false
+	case "slinto": // the other spelling: SliceInto a fresh *Dense
+		v, err := t.SliceInto(new(tensor.Dense), parseSlices(f[1])...)
+		if err != nil {
+			return "err " + kObs(w.t), false
+		}
+		w.t = v.(*tensor.Dense)
+		return st(nil), false
 	case "clone":
 		w.t = t.Clone().(*tensor.Dense)
 		return st(nil), false
@@ -725,6 +732,9 @@ func genC15(tier string, r *rng, emit func(string)) {
 				}
 				for _, sl := range tc.sls {
 					mk(dt, 0, prog, fmt.Sprintf("setmask:%s;slice:%s", bs, sl))
+					if k%3 == 1 {
+						mk(dt, 0, prog, fmt.Sprintf("setmask:%s;slinto:%s;%s", bs, sl, after[r.intn(len(after))]))
+					}
 					q := after[r.intn(len(after))]
 					mk(dt, 0, prog, fmt.Sprintf("setmask:%s;slice:%s;%s", bs, sl, q))
 					if len(tc.axes) > 0 {
